@@ -79,13 +79,19 @@ type snap struct {
 	Binds    []string
 	Book     []string // client-side bookkeeping towards this peer's server features
 	Resolved bool
+	BySki    bool
+	ByAddr   bool
 }
 
 func (m *machine) snapshot(pi int) snap {
 	p := m.w.Peers[pi]
 	s := snap{}
 	dev := m.w.Local.RemoteDeviceForSki(p.Ski)
-	s.Resolved = dev != nil && m.w.Local.RemoteDeviceForAddress(p.Addr) != nil
+	// (the stack learns the address from the discovery data: a peer that has not announced itself is
+	// resolved by SKI only)
+	s.BySki = dev != nil
+	s.ByAddr = m.w.Local.RemoteDeviceForAddress(p.Addr) != nil
+	s.Resolved = s.BySki && (s.ByAddr || p.Ents == nil)
 	// registries are filtered by SKI; the Peer keeps the device object also after removal
 	for _, e := range m.w.Local.SubscriptionManager().Subscriptions(p.Dev) {
 		s.Subs = append(s.Subs, fmt.Sprintf("%s->%s", refOf(e.ClientFeature.Address()), refOf(e.ServerFeature.Address())))
@@ -301,6 +307,10 @@ func (m *machine) othersUntouchedAndServed(t *rapid.T, victim int, before map[in
 		cmd := model.CmdType{}
 		reflect.ValueOf(&cmd).Elem().FieldByName(f.CmdField).Set(reflect.New(f.DataType))
 		d := p.Msg(model.CmdClassifierTypeRead, p.FA([]uint{1}, 1), m.w.Servers[0].F.Address(), false, nil, cmd)
+		if p.Ents == nil {
+			// all a peer that has not announced itself can ask for: node management data
+			d = p.Msg(model.CmdClassifierTypeRead, p.NM(), world.LocalNM(), false, nil, model.CmdType{NodeManagementDetailedDiscoveryData: &model.NodeManagementDetailedDiscoveryDataType{}})
+		}
 		p.Send(d)
 		m.w.Sync()
 		replies := 0
@@ -331,7 +341,7 @@ func (m *machine) disconnect(t *rapid.T) {
 	other := -1
 	if during {
 		for pi, q := range m.w.Peers {
-			if pi != victim && !q.Gone {
+			if pi != victim && !q.Gone && q.Ents != nil {
 				other = pi
 			}
 		}
@@ -371,12 +381,12 @@ func (m *machine) disconnect(t *rapid.T) {
 	m.ops = append(m.ops, how)
 	// all of the victim's state is gone
 	after := m.snapshot(victim)
-	if len(after.Subs)+len(after.Binds)+len(after.Book) != 0 || after.Resolved {
+	if len(after.Subs)+len(after.Binds)+len(after.Book) != 0 || after.BySki || after.ByAddr {
 		kind := "registry"
 		if len(after.Book) != 0 {
 			kind = "bookkeeping"
 		}
-		if after.Resolved {
+		if after.BySki || after.ByAddr {
 			kind = "still-resolvable"
 		}
 		world.Fail(t, "C10/removed-device-state-left/"+kind, "after %s peer%d still has state: %+v%s", how, victim+1, after, m.history())
@@ -451,8 +461,8 @@ func (m *machine) lateResponse(t *rapid.T) {
 
 func (m *machine) entityRemoved(t *rapid.T) {
 	victim := m.live(t, "victim")
-	if m.ent2Gone[victim] {
-		t.Skip("already removed")
+	if m.ent2Gone[victim] || m.w.Peers[victim].Ents == nil {
+		t.Skip("already removed / not announced")
 	}
 	p := m.w.Peers[victim]
 	before := map[int]snap{}
@@ -550,7 +560,11 @@ func ptr[T any](v T) *T { return &v }
 
 func TestTeardown(t *testing.T) {
 	rapid.Check(t, world.Prop(func(t *rapid.T) {
-		m := &machine{w: regs.New(3), pending: map[int]int{}, ent2Gone: map[int]bool{}}
+		// sometimes one or two of the three peers have not announced themselves yet (all they can hold
+		// are node management subscriptions / bindings, under an address without device part)
+		silent := rapid.SampledFrom([]int{0, 0, 0, 1, 2}).Draw(t, "unannouncedPeers")
+		world.Label(fmt.Sprintf("unannouncedPeers/%d", silent))
+		m := &machine{w: regs.NewWithUnannounced(3, silent), pending: map[int]int{}, ent2Gone: map[int]bool{}}
 		defer m.w.Teardown()
 		// most peers answer what the stack asked them after their announcement
 		for i, p := range m.w.Peers {
